@@ -83,7 +83,7 @@ AdvancingSigned ==
     /\ \A slot \in 0 .. MaxI : slot > mrp => PropVerdict(db.ps, slot, "prop") = "APPROVED"
 \* C05 at rule level, in every reachable state and for every request
 RoutedByDomain ==
-    /\ \A dom \in GenDoms, ip \in {"none", "listed", "unlisted"} :
+    /\ \A dom \in GenDoms, ip \in IPClasses :
           /\ dom \in {"att", "prop"} => GenericVerdict(dom, ip) = "DENIED"
           /\ (dom = "exit" /\ ip # "listed") => GenericVerdict(dom, ip) = "DENIED"
           /\ (dom \notin {"att", "prop", "exit"} \/ (dom = "exit" /\ ip = "listed")) => GenericVerdict(dom, ip) = "APPROVED"
